@@ -8,12 +8,8 @@ func c08Specs(tier string) []*Spec {
 	bounds := append([][]byte{nil, {}}, probesFor(keys)...)
 	small := [][]byte{nil, {}, []byte("a"), []byte("aa"), []byte("ab"), []byte("b"), []byte("b\x00"), {0x01}}
 	add := func(name string, cfg Cfg, depth, maint int, b [][]byte) {
-		wt := 1
-		if depth >= 5 {
-			wt = 6
-		}
 		a := Alpha{Writes: true, Save: true, Rollback: true, Reopen: stdReopen, DelTo: true, LVFO: true, MaxVersions: 3}
-		specs = append(specs, &Spec{Weight: wt, ID: "C08", Name: name, Cfg: cfg, Keys: keys, Vals: bs("x", ""), MaxDepth: depth, MaxMaint: maint,
+		specs = append(specs, &Spec{ID: "C08", Name: name, Cfg: cfg, Keys: keys, Vals: bs("x", ""), MaxDepth: depth, MaxMaint: maint,
 			Alphabet: a.Ops, Oracles: []Oracle{oracleIter(b)}})
 	}
 	if tier == "quick" {
